@@ -2,4 +2,4 @@ From Coq Require Import Extraction ExtrOcamlBasic.
 From RB Require Import Base.Prelude Conn.Serial Conn.SerialProofs.
 Extraction Language OCaml.
 Set Extraction Output Directory ".".
-Extraction "gen_model.ml" conn_init step run_ops wire_serial issued make_response make_error_response unknown_method invalid_args dh_default nallocs.
+Extraction "gen_model.ml" conn_init step run_ops wire_serial issued make_response make_error_response unknown_method invalid_args dh_default nallocs alloc_many hello_matches.
